@@ -31,6 +31,32 @@ TECHNIQUE = "convention agreement across sibling accessors of the adjacency matr
 G = "menpo.shape.graph."
 
 
+def _zip_source(f, name):
+    """`name` is bound by  for a, b in zip(A, B)  (or  for a in A): the iterable it walks over"""
+    for n in walk_own(f.node):
+        if isinstance(n, ast.For):
+            tg = n.target.elts if isinstance(n.target, ast.Tuple) else [n.target]
+            it = n.iter
+            srcs = it.args if isinstance(it, ast.Call) and (dotted(it.func) or "") == "zip" else [it]
+            if len(srcs) == len(tg):
+                for t_, s_ in zip(tg, srcs):
+                    if isinstance(t_, ast.Name) and t_.id == name and isinstance(s_, ast.Name):
+                        return s_.id
+    return None
+
+
+def _axis_of(f, d, ax, e):
+    """0 / 1 when `e` is an element of the row / column index array of the adjacency matrix (X[i] or a zip loop variable)"""
+    e2 = expand(e, d)
+    if isinstance(e2, ast.Subscript) and isinstance(e2.value, ast.Name):
+        return ax.get(e2.value.id)
+    if isinstance(e2, ast.Name):
+        src = _zip_source(f, e2.id)
+        if src is not None:
+            return ax.get(src)
+    return None
+
+
 def _unpack_nonzero(f, d):
     """locals bound to (rows, cols) = X.adjacency_matrix.nonzero(): name -> 0 | 1"""
     out = {}
@@ -83,10 +109,7 @@ def rule_r1(p, res):
     key, val = app[0].func.value.slice, app[0].args[0]
 
     def axis_of(e):
-        e2 = expand(e, d)
-        if isinstance(e2, ast.Subscript) and isinstance(e2.value, ast.Name):
-            return ax.get(e2.value.id)
-        return None
+        return _axis_of(al, d, ax, e)
     r.check(axis_of(key) == 0 and axis_of(val) == 1, al, app[0], "adjacency list of a vertex (row) must collect the column indices of its row", {"site": "adjacency list"})
     # directed edges
     de = p.own_method("DirectedGraph", "edges")
@@ -102,10 +125,7 @@ def rule_r1(p, res):
     need(len(st) == 1, "C14.R1: predecessor store not recognised")
 
     def axis2(e):
-        e2 = expand(e, d)
-        if isinstance(e2, ast.Subscript) and isinstance(e2.value, ast.Name):
-            return ax.get(e2.value.id)
-        return None
+        return _axis_of(pl, d, ax, e)
     r.check(axis2(st[0].targets[0].slice) == 1 and axis2(st[0].value) == 0, pl, st[0], "predecessor of a child (column) is its parent (row)", {"site": "predecessors"})
     # relative locations
     rl = p.own_method("PointDirectedGraph", "relative_locations")
@@ -394,9 +414,51 @@ def rule_r6(p, res):
             "vertex reachable by two routes look like a back edge", {"entered_line": ent[0].lineno, "loop_line": lp.lineno, "exited_line": ext[0].lineno})
     rec = [k for k in calls_in(lp) if norm(k.func) == dfs.name]
     r.check(len(rec) == 1 and norm(rec[0].args[0]) == norm(lp.target), f, lp, "every successor must be explored recursively")
-    s = norm(dfs)
-    r.check("not directed and tree_edges.get(%s, None) != y or (directed and y not in exited)" % node in s, f, f.node,
-            "back edge: undirected -> an entered neighbour that is not the tree parent; directed -> an entered neighbour that has not been exited")
+    # when is a back edge recorded?  truth table over (directed, neighbour entered, neighbour exited, neighbour is the tree parent)
+    y = norm(lp.target)
+    rec_be = [stmt_of(k) for k in calls_in(lp) if "back_edges" in norm(k.func) and isinstance(k.func, ast.Attribute) and k.func.attr in ("add", "append", "setdefault")]
+    rec_be += [n for n in walk_own(lp) if isinstance(n, ast.Assign) and "back_edges" in norm(n.targets[0])]
+    need(rec_be, "C14.R6: the statement that records a back edge was not found")
+    gd = cfgmod.build(dfs)
+    guards = [(t_, pol) for t_, pol in gd.guards(rec_be[0]) if any(x is t_ for st_ in walk_own(lp) for x in ast.walk(st_))]
+
+    def ev(e, asg):
+        if isinstance(e, ast.UnaryOp) and isinstance(e.op, ast.Not):
+            v = ev(e.operand, asg)
+            return None if v is None else not v
+        if isinstance(e, ast.BoolOp):
+            vs = [ev(v, asg) for v in e.values]
+            if any(v is None for v in vs):
+                return None
+            return all(vs) if isinstance(e.op, ast.And) else any(vs)
+        if isinstance(e, ast.IfExp):
+            c_ = ev(e.test, asg)
+            return None if c_ is None else ev(e.body if c_ else e.orelse, asg)
+        if isinstance(e, ast.Name) and e.id == "directed":
+            return asg["d"]
+        if isinstance(e, ast.Compare) and len(e.ops) == 1:
+            l_, r_ = norm(e.left), norm(e.comparators[0])
+            op = e.ops[0]
+            if isinstance(op, (ast.In, ast.NotIn)) and l_ == y and r_ in ("entered", "exited"):
+                v = asg[r_]
+                return v if isinstance(op, ast.In) else not v
+            if isinstance(op, (ast.Eq, ast.NotEq)) and {l_, r_} == {y, "tree_edges.get(%s, None)" % node}:
+                v = asg["parent"]
+                return v if isinstance(op, ast.Eq) else not v
+        return None
+    bad = []
+    for asg in ({"d": a_, "entered": b_, "exited": c_, "parent": d_} for a_ in (0, 1) for b_ in (0, 1) for c_ in (0, 1) for d_ in (0, 1)):
+        got = True
+        for t_, pol in guards:
+            v = ev(t_, asg)
+            if v is None:
+                raise AnalysisError("C14.R6: cannot evaluate the back-edge condition `%s`" % norm(t_)[:70])
+            got = got and (bool(v) == bool(pol))
+        want = bool(asg["entered"]) and ((not asg["d"] and not asg["parent"]) or (asg["d"] and not asg["exited"]))
+        if got != want:
+            bad.append(dict(asg))
+    r.check(not bad, f, rec_be[0], "back edge: undirected -> an entered neighbour that is not the tree parent; directed -> an entered neighbour that has not been exited "
+            "(the recorded condition differs for %s)" % (bad[:2],), {"back_edge_cases": 16})
     outer = [n for n in f.node.body if isinstance(n, ast.For)]
     r.check(len(outer) == 1 and norm(outer[0].iter) == "range(len(adjacency_list))", f, f.node, "every vertex must be tried as a start (disconnected graphs)")
 
